@@ -693,7 +693,8 @@ def part_histories(run, fsets):
         if ign:
             targets = [("ign", 0, "full" if thorough else "probe"), ("ign", 1, "full" if thorough else ("std" if recipe == "ign" else "probe"))]
         elif thorough:
-            targets = [(t, ni, "full" if (t, ni) in (("flat", 0), ("deep", 3), ("levels", 1)) else "probe") for t in TREES if t not in ("ign", "big") for ni in range(len(NESTED[t]))]
+            lv = {("flat", 0): "full", ("deep", 3): "std" if recipe == "many12" else "full", ("levels", 1): "std"}
+            targets = [(t, ni, lv.get((t, ni), "probe")) for t in TREES if t not in ("ign", "big") for ni in range(len(NESTED[t]))]
         else:
             t2, n2 = rotate[ri % len(rotate)]
             targets = [("flat", 0, "std"), ("deep", 3, "std" if recipe in key else "probe"), (t2, n2, "probe")]
@@ -702,7 +703,7 @@ def part_histories(run, fsets):
             if not nested:
                 modes = ["same"]
             elif thorough:
-                modes = NMODES if (tree, ni) == ("deep", 3) else [NMODES[k % 5], NMODES[(k + 2) % 5]]
+                modes = [NMODES[(k + j) % 5] for j in range(3)] if (tree, ni) == ("deep", 3) else [NMODES[k % 5]]
             else:
                 modes = [NMODES[k % 5]]
             for nmode in modes:
@@ -736,12 +737,13 @@ def part_spellings(run, fsets):
         if wanted_world(run, wid):
             w = seal(run, wid, tree, nested, nmode, recipe, F1, F2)
             if w is not None:
-                recorded = sorted(set(F1) | (set(F2) if recipe in ("two-fmt", "many12", "n+dh") else set()))
+                # -h only with formats in which the outer history recorded directory hashes
+                recorded = sorted(set(F2) if recipe == "n+dh" else set(F1) | (set(F2) if recipe in ("two-fmt", "many12") else set()))
                 optsets = [("-v",)] + [("-h", f) for f in recorded] + [("-v", "-h", recorded[0])]
-                if thorough:
+                if thorough and ti < 3:
                     combos = [(s, o) for s in SPELLS for o in [()] + optsets]
                 else:
-                    combos = [(s, ()) for s in SPELLS] + [("abs", o) for o in optsets] + [("dot", ("-v",))]
+                    combos = [(s, ()) for s in SPELLS] + [("abs", o) for o in optsets] + [("dot", ("-v",)), ("slash", ("-h", recorded[-1]))]
                 check_world(
                     run,
                     w,
@@ -765,7 +767,7 @@ def part_spellings(run, fsets):
                 w.has_dh = True
             except SetupFailed:
                 continue
-            combos = [(s, ()) for s in (SPELLS if thorough else ("abs", "dot"))]
+            combos = [(s, ()) for s in (("abs", "dot", "slash", "updown") if thorough else ("abs", "dot"))]
             check_world(run, w, {"tree": tree, "nested": nested, "create_spelling": cs, "formats": F1}, "probe", combos=combos)
 
 
@@ -1024,7 +1026,7 @@ def main():
         "U+2028, option-like names, a sub-folder named like the root, duplicates, file symlinks, files of 2^20-1/2^20/2^20+1 bytes), <= 3 nested histories up to 3 deep, "
         "17 history recipes (1-12 generations; -n, -sf, differing format sets, failed generation, repeated -h, -i/-ii patterns, "
         "negation added later), 5 format sets quick / 22 thorough, 7 root spellings, -v / -h, 2-5 time zones with mtimes around DST "
-        "switches, a crash at 8 (quick) / every (thorough) file-system event of a second create, 6 (quick) / 120 (thorough) seeded random worlds; quick runs the basic mutation kinds on 15 worlds and a probe subset (root-level, deepest, one per nested history, one per class) elsewhere",
+        "switches, a crash at 8 (quick) / every (thorough) file-system event of a second create, 6 (quick) / 120 (thorough) seeded random worlds; quick runs the basic mutation kinds on 16 worlds and a probe subset (root-level, deepest, one per nested history, one per class) elsewhere",
     )
     parts = (part_mutations, part_histories, part_spellings, part_special, part_crash, part_random)
     for part in parts:
